@@ -15,7 +15,7 @@ Nm(p, i) == p \o ToString(i)
 (* every type at the four positions; member names are numbered *)
 AliasM(i)  == MType(Nm("A", i), TypeSeq[i])
 InM(i)     == MMethod(Nm("I", i), Struct(<<F("x", TypeSeq[i]), F("y", Leaf("int"))>>), Struct(<<>>))
-OutM(i)    == MMethod(Nm("O", i), Struct(<<>>), Struct(<<F("x", TypeSeq[i])>>))
+OutM(i)    == MMethod(Nm("O", i), Struct(<<>>), Struct(<<F("w", Leaf("bool")), F("x", TypeSeq[i])>>))
 EchoM(i)   == MMethod(Nm("E", i), Struct(<<F("x", TypeSeq[i])>>), Struct(<<F("x", TypeSeq[i])>>))
 ErrM(i)    == MError(Nm("X", i), <<Struct(<<F("x", TypeSeq[i])>>)>>)
 Group(lo, hi) == FlattenSeq([k \in 1..(hi - lo + 1) |-> LET i == lo + k - 1 IN <<AliasM(i), InM(i), OutM(i), EchoM(i), ErrM(i)>>])
@@ -37,7 +37,12 @@ Names == {Desc(n, <<MType("T", OddStruct), MMethod("M", OddStruct, OddStruct2), 
          \cup {Desc("a.b", <<MError("OnlyBare", <<>>), MMethod("M", Struct(<<>>), Struct(<<>>))>>)}
          \cup {Desc("a.b", <<MType("Rec", Struct(<<F("next", Maybe(Alias("Rec"))), F("all", Arr(Alias("Rec"))), F("m", Map(Alias("Rec")))>>)),
                             MMethod("M", Struct(<<F("r", Alias("Rec"))>>), Struct(<<F("r", Maybe(Alias("Rec")))>>))>>)}
-Programs == Packed \cup Names
+(* minimal descriptions: one method, one type, nothing else (no alias, no error): the emitted file's imports *)
+(* and helper code must be right for every type on its own                                              *)
+UsesAlias(t) == t.k = "alias" \/ (t.e # <<>> /\ t.e[1].k = "alias") \/ \E i \in 1..Len(t.fs) : t.fs[i].t # <<>> /\ t.fs[i].t[1].k = "alias"
+Solo == {Desc("a.b", <<MMethod("M", Struct(<<F("x", TypeSeq[i])>>), Struct(<<>>))>>) : i \in {j \in 1..NT : ~UsesAlias(TypeSeq[j])}}
+        \cup {Desc("a.b", <<MMethod("M", Struct(<<>>), Struct(<<F("x", TypeSeq[i])>>))>>) : i \in {j \in 1..NT : ~UsesAlias(TypeSeq[j]) /\ TypeSeq[j].k \in {"object", "map", "array", "maybe"}}}
+Programs == Packed \cup Names \cup Solo
 
 (* the package name the generator derives: the interface name in lower case without '.' (and without '-') *)
 Upper == <<"A","B","C","D","E","F","G","H","I","J","K","L","M","N","O","P","Q","R","S","T","U","V","W","X","Y","Z">>
